@@ -14,8 +14,9 @@ CHECKS = {
     'C01': ('exploration', 'DESIGN.md §3 C01',
             'Every built-in non-numpy, non-filesystem Parameter type x every constraint configuration (bounds None/one-/two-sided x four '
             'inclusivities, allow_None, regexes, lengths, item types, object lists/dicts, check_on_set, class_/is_instance) x ~110 candidate '
-            'values plus each configuration\'s boundary and just-outside (nextafter) values x 7 assignment routes (Parameter default, constructor, '
-            'instance attribute, class attribute, instance/class update, deserialization) is executed; acceptance must equal an independent '
+            'values plus each configuration\'s boundary and just-outside (nextafter) values x 12 assignment routes (Parameter default, constructor, '
+            'instance attribute, class attribute, instance/class update, deserialization, Parameter reconfigured on class / instance, constraints '
+            'inherited by a redeclaring subclass, constant parameter through the constructor and inside edit_constant) is executed; acceptance must equal an independent '
             'three-valued predicate, rejections must be ValueError/TypeError and leave the value untouched, accepted values read back by identity.',
             'bounded-exhaustive enumeration (type x configuration x value x route) against an independent acceptance predicate',
             BASE_NOTE + ' Cases the documentation leaves open are EITHER (counted in the evidence, not judged).'),
@@ -24,12 +25,12 @@ CHECKS = {
             'updates, class-level sets on base and subclass, making a parameter constant, open batch / discard contexts); in every reached state each of '
             '27 rejected attempts (invalid plain values incl. NaN, references whose current value is invalid, constant / read-only / name violations, '
             'invalid Event values; instance, class, subclass and single-key update routes) is made on a fresh replay: it must raise ValueError/TypeError, '
-            'run no watcher, leave values, stored values, links and every watcher table identical, and a fixed probe must then observe exactly what it '
+            'run no watcher, leave values, stored values, links, every watcher table and the Parameter object governing each name on every class identical, and a fixed probe must then observe exactly what it '
             'observes in a twin world that never saw the attempt.',
             'explicit-state BFS over operation histories of the real code with a differential (twin-world) oracle',
             BASE_NOTE),
     'C03': ('model_checking', 'DESIGN.md §3 C03, Appendix A',
-            'Every program up to the depth bound over five complete slices of watcher configurations (ordering/lifecycle, changes-only '
+            'Every program up to the depth bound over six complete slices of watcher configurations (ordering/lifecycle, one-shot watchers that unwatch themselves inside the callback, changes-only '
             'filtering over a 22-value equality domain incl. 1/True/1.0/NaN/equal containers/dates/sets, queued and non-queued cascades, '
             'slot watchers, class-level watchers) is executed on the real dispatcher; the trace recorded by the callbacks is checked for '
             'inclusion in a reference dispatcher written from the statement (exactly-once, order, old/new identity, type, value visible at entry, depth-first cascades).',
@@ -44,7 +45,8 @@ CHECKS = {
     'C05': ('fault_enumeration', 'DESIGN.md §3 C05',
             'For every token program up to the length bound, every subset (<= F) of watcher invocations is made to raise, and rejected update keys '
             'and raising context bodies occur at every position; after each faulty run the survivor must (i) never run a watcher while a surviving '
-            'batch is open, (ii) have announced what a rejected update applied, (iii) answer a fixed probe exactly like a freshly built twin.',
+            'batch is open, (ii) have announced what a rejected update applied, (iii) hold nothing queued once no batch is open, (iv) answer a fixed probe '
+            '(starting with an unrelated assignment) exactly like a freshly built twin; five watcher configurations incl. queued cascades.',
             'exhaustive fault enumeration (positions x programs) with a differential probe against a fresh twin',
             BASE_NOTE),
     'C06': ('model_checking', 'DESIGN.md §3 C06',
@@ -56,11 +58,10 @@ CHECKS = {
             'exhaustive enumeration of class hierarchies x operation programs on the real code vs. an independent MRO-based resolver',
             BASE_NOTE),
     'C07': ('model_checking', 'DESIGN.md §3 C07',
-            'For every single dependency path (a.x, a.y, a.b.x, a.b.y, a.param, x, c.y) and every path combined with an own parameter, BFS over '
+            'For every single dependency path (a.x, a.y, a.b.x, a.b.y, a.param, x, c.y, a.b.c.x), every path combined with an own parameter, every pair of the six sub-object paths, one triple and two methods sharing sub-objects, BFS over '
             'attach / replace / detach at both levels and leaf assignments on attached and detached objects (incl. falsy container-like objects); '
             'after every step the invocation count must match an object-graph model that uses only the values reached through the declared paths, and no '
-            'object off the current paths may carry a watcher for the parent. Dependency sets with two paths through sub-objects are executed as '
-            'pinned scenarios (known findings).',
+            'object off the current paths may carry a watcher for the parent.',
             'explicit-state BFS over operation histories of real object graphs vs. an object-graph reference model',
             BASE_NOTE),
     'C08': ('model_checking', 'DESIGN.md §3 C08',
@@ -84,9 +85,9 @@ CHECKS = {
     'C10': ('model_checking', 'DESIGN.md §3 C10',
             'On a hand-stepped virtual asyncio loop (the harness pops every ready callback itself): for every program of <= 3 (thorough 4) assignments '
             'to an allow_refs parameter drawn from {coroutine function (distinct or one shared function object), async generator with two gated yields, '
-            'coroutine bound to a dependency, plain value, dependency update} every schedule of {perform the next assignment, complete any pending '
+            'coroutine bound to a dependency, plain value, synchronous reference, generator whose first value a watcher answers with a plain assignment, dependency update} every schedule of {perform the next assignment, complete any pending '
             'non-cancelled future, run one ready callback} with <= 2 (thorough 3) non-draining deviations is executed from scratch; and the same for a '
-            'root piped through a coroutine / async generator with interleaved root updates and reads, watched or not.  At quiescence the parameter / '
+            'root piped through a coroutine / async generator (with a second input passed as extra argument) with interleaved root / argument updates and reads, watched or not.  At quiescence the parameter / '
             'expression holds the result of the latest assignment, no superseded result is ever applied after a newer assignment, no task stays '
             'registered and the syncing marker is clear.',
             'stateless schedule enumeration (deviation-bounded) of the real code on a controlled virtual event loop',
@@ -101,7 +102,7 @@ CHECKS = {
             'bounded-exhaustive enumeration of declared hierarchies on real class creation vs. an independent resolver',
             BASE_NOTE),
     'C12': ('model_checking', 'DESIGN.md §3 C12',
-            'BFS over instance creation (plain, with keyword, with a reference that yields no value), instance / class / subclass assignments, in-place '
+            'BFS over instance creation (plain, with keyword, with a reference that yields no value, with a new value for an open Selector, of a class three levels below the one assigned to), instance / class / subclass assignments (incl. the very object that is the class default), param.trigger, in-place '
             'mutation of values through instances and classes, Parameter attribute assignment and in-place mutation of a Selector\'s objects on instances and '
             'classes, for a class with instantiate=True, shared, bounded, constant, per_instance=False and allow_refs parameters and a subclass that '
             'redeclares one with a narrower type; after every step the whole observation matrix (every class and instance x every parameter: value, '
@@ -109,16 +110,17 @@ CHECKS = {
             'explicit-state BFS over operation histories of the real code vs. an ownership / aliasing model',
             BASE_NOTE),
     'C13': ('model_checking', 'DESIGN.md §3 C13',
-            'BFS over class-level assignments at every level of A->B->C / A->B2, add_parameter of a new and of an existing name at every level, '
+            'BFS over class-level assignments at every level of A->B->C->E / A->B2 / D(B, B2), Parameter objects assigned as class attributes, add_parameter of a new and of an existing name at every level, '
             'cache-filling namespace reads, instance creation, instance assignment and instance namespace access; in every reached state, for every '
             'class and instance: the names in .param equal the Parameters Python attribute lookup finds, .param[n] is that very object, its default equals '
-            'the class attribute, values()/repr/serialization agree with getattr; then a probe (watch + set on each instance, a fresh instance of every class, '
+            'the class attribute, values()/repr/serialization agree with getattr (also while a class-level watcher of the assignment is running, where the value it is told must be what getattr gives); then a probe (watch + set on each instance, a fresh instance of every class, '
             'use of an added parameter).',
             'explicit-state BFS with an invariant over all classes and instances (no reference model other than Python attribute lookup)',
             BASE_NOTE),
     'C14': ('model_checking', 'DESIGN.md §3 C14',
-            'BFS over instance sets of a constant (new object / the identical object), of a read-only parameter and of name, single-key update, class-level '
-            'sets on the declaring class and on a subclass, nested and failing edit_constant blocks on either of two instances, and creation of per-instance '
+            'Five slices (ordinary Parameters, per_instance=False, no_instance_params, a constant with allow_refs and two reference sources, assignments attempted '
+            'inside watcher / depends callbacks started by a set or by param.trigger): BFS over instance sets of a constant (new object / the identical object), of a read-only parameter and of name, single-key update, class-level '
+            'sets on the declaring class and on a subclass, nested and failing edit_constant blocks on either of two instances or on the class, leaving several blocks at once, and creation of per-instance '
             'Parameter copies; after every step the identity held by every constant (incl. one whose default is None), read-only and name parameter and the '
             'class defaults are compared with the model, and whenever no edit block is open every constant flag on class and instance Parameter objects must be True.',
             'explicit-state BFS over operation histories of the real code vs. an identity model',
@@ -126,19 +128,19 @@ CHECKS = {
     'C15': ('exploration', 'DESIGN.md §3 C15',
             'For 18 serializable parameter types a boundary-rich value list (extreme ints/floats, -0.0, escape-laden and non-ASCII strings, empty '
             'containers, microseconds, years 1/999/9999, date-only and datetime ranges, None) x class/instance level x {all, subset=, '
-            'serialize_value/deserialize_value} is pushed through the real serializer; the text must be standard JSON and the rebuilt object must hold '
+            'serialize_value/deserialize_value, selective restore, empty subset, the same text restored twice with the first result mutated in place} is pushed through the real serializer; the text must be standard JSON and the rebuilt object must hold '
             'values equal and of identical Python type; quick adds every unordered, thorough every ordered pair of types in one class.',
             'bounded-exhaustive enumeration of round trips through the real serializer',
             BASE_NOTE),
     'C16': ('exploration', 'DESIGN.md §3 C16',
             'For every constraint configuration of the schema-capable types (bounds x inclusivity, lengths, item types, object lists incl. empty and '
             'None-containing, class_, allow_None) the generated schema is meta-validated (Draft 7) and every listed valid state, class and instance '
-            'level, must validate against it; for Number/Integer every out-of-bounds probe (incl. nextafter and exactly-on-exclusive-bound) must be rejected.',
+            'level (incl. reconfigured per-instance Parameters, open dict-declared Selectors and Selector defaults computed on request), must validate against it; for Number/Integer every out-of-bounds probe (incl. nextafter and exactly-on-exclusive-bound) must be rejected.',
             'bounded-exhaustive enumeration of configurations x states, decided by the jsonschema Draft-7 validator',
             BASE_NOTE + ' Trusted: jsonschema 4.26 (vendored offline by setup.sh).'),
     'C19': ('model_checking', 'DESIGN.md §3 C19',
-            'Two slices on real time-dependent generators (two UniformRandom with the same name and seed, one with another seed, a SquareWave; two '
-            'instances; the global param.Time): (micro) BFS over jumps, +1/-1, reads through either instance, inspect_value, nested time contexts and '
+            'Three slices on real time-dependent generators (two UniformRandom with the same name and seed, one with another seed, a SquareWave, a composite '
+            'TimeSampledFn, a generator that cannot produce a value at time 1; two instances; the global param.Time; third slice: param.random_seed set after construction): (micro) BFS over jumps, +1/-1, reads through either instance, inspect_value, nested time contexts (left normally, through an exception, through StopIteration) and '
             '_state_push/_state_pop; (macro) after a warm-up that fills the (name, seed, time) table for every time of the alphabet, BFS to depth 8 '
             'over jump-and-read, push/pop (nested) and nested time contexts.  Every read must equal the value first produced for its (name, seed, time), '
             'on any instance and after any visiting order; inspection shows the last produced value and does not advance it; leaving a context restores '
@@ -148,14 +150,14 @@ CHECKS = {
     'C20': ('exploration', 'DESIGN.md §3 C20',
             'For four class shapes (default constructor, positional+keyword custom constructor, keyword whose signature default differs from the '
             'Parameter default, nested Parameterized values) every listed value of every parameter (negative/huge ints, +-inf, escapes, bytes, None, '
-            'empty and one-element tuples, nesting, explicit names) and all-parameters-at-once states are printed with script_repr() and .param.pprint(); '
+            'empty and one-element tuples, nesting, explicit names incl. class-like ones), all-parameters-at-once states, one nested object reachable twice, nested objects inside lists/tuples, and the same states after an interrupted print are printed with script_repr() and .param.pprint(); '
             'the text is executed in a namespace holding only its own imports and the rebuilt object compared recursively.',
             'bounded-exhaustive enumeration of states; printed text executed and compared',
             BASE_NOTE),
     'C17': ('model_checking', 'DESIGN.md §3 C17',
             'Every pre-copy history of length <= 2 (sets, update, in-place mutation, per-instance Parameter edits incl. Selector objects of dict and '
             'OrderedDict kind, sub-object attachment, user watchers bound to the instance with precedences, ordinary attributes incl. one stored in the '
-            'class\'s own __slots__) x copy mechanism (deepcopy, pickle protocols 2 and 5; thorough 0-5) x every post-copy history of length <= 2 applied '
+            'class\'s own __slots__, also holding None; a subclass with a depends(\'sub.x\', watch=True) method over every pre-history that attaches the sub-object) x copy mechanism (deepcopy, pickle protocols 2 and 5; thorough 0-5) x every post-copy history of length <= 2 applied '
             'to the original or the copy is executed: the copy must succeed, equal the original (values, per-instance Parameter attributes, ordinary '
             'attributes), share no mutable object (identity walk), every later operation must leave the other side\'s snapshot and the class-level state '
             'untouched, dependent methods fire exactly once on the side operated on and user watchers run bound to that side in precedence order.',
@@ -163,7 +165,7 @@ CHECKS = {
             BASE_NOTE),
     'C18': ('model_checking', 'DESIGN.md §3 C18',
             'Every mutation history up to the depth bound over list- and dict-declared Selector/ListSelector '
-            '(class and instance level) is executed on the real ListProxy and compared after every step with a '
+            '(class and instance level; a reused proxy; None and NaN among the objects; an open dict-declared Selector with un-named entries) is executed on the real ListProxy and compared after every step with a '
             'plain list/dict: list view, items/keys/values, names, get_range(), pop return value, one objects-watcher '
             'notification, and acceptance of every pool value.',
             'explicit-state BFS over operation histories of the real code vs. reference model (list/dict)',
